@@ -2,7 +2,7 @@
 GENERATED import list — regenerate with `python3 tools/gen_all_imports.py` (from /verif); do not edit the
 imports by hand. `python3 tools/gen_all_imports.py --check` fails if a module on disk is not imported here.
 
-Imports every module of the libraries QmcModel, QmcProofs, QmcProps (219 modules), so that
+Imports every module of the libraries QmcModel, QmcProofs, QmcProps (224 modules), so that
 `lake build QmcAll` certifies that the whole development type-checks in ONE environment: no two modules
 declare the same name (Lean: "environment already contains …"). See design_notes/Cleanup.md.
 
@@ -23,6 +23,7 @@ import QmcModel.Convert
 import QmcModel.Cutoff
 import QmcModel.Diagonal
 import QmcModel.FastOps
+import QmcModel.FastOpsCounters
 import QmcModel.FastOpsHint
 import QmcModel.FastOpsHintDriver
 import QmcModel.Generated.Ambient
@@ -55,6 +56,7 @@ import QmcProofs.AutocorrFFT
 import QmcProofs.BondContainer
 import QmcProofs.CapstoneCount
 import QmcProofs.CapstoneLimit
+import QmcProofs.CapstoneLimitHam
 import QmcProofs.CapstoneLimitIsing
 import QmcProofs.Classical
 import QmcProofs.ClassicalErgodic
@@ -82,6 +84,7 @@ import QmcProofs.Dist
 import QmcProofs.FastOpsBasic
 import QmcProofs.FastOpsChain
 import QmcProofs.FastOpsCount
+import QmcProofs.FastOpsCounters
 import QmcProofs.FastOpsCursor
 import QmcProofs.FastOpsFill
 import QmcProofs.FastOpsFull
@@ -204,8 +207,10 @@ import QmcProps.C01
 import QmcProps.C01Capstone
 import QmcProps.C01Limit
 import QmcProps.C02
+import QmcProps.C02Limit
 import QmcProps.C03
 import QmcProps.C03Kernel
+import QmcProps.C03Limit
 import QmcProps.C04
 import QmcProps.C04Capstone
 import QmcProps.C04LawLoop
